@@ -407,9 +407,9 @@ private:
             {
                 int p = ( src[1] << 8 ) | src[0];
 
-                int r = ((p & this->_mask.red.mask)   >> this->_mask.red.shift)   << (8 - this->_mask.red.width);
-                int g = ((p & this->_mask.green.mask) >> this->_mask.green.shift) << (8 - this->_mask.green.width);
-                int b = ((p & this->_mask.blue.mask)  >> this->_mask.blue.shift)  << (8 - this->_mask.blue.width);
+                int r = extract_channel( static_cast< unsigned int >( p ), this->_mask.red );
+                int g = extract_channel( static_cast< unsigned int >( p ), this->_mask.green );
+                int b = extract_channel( static_cast< unsigned int >( p ), this->_mask.blue );
 
                 get_color( it[i], red_t()   ) = static_cast< byte_t >( r );
                 get_color( it[i], green_t() ) = static_cast< byte_t >( g );
